@@ -1,0 +1,12 @@
+//go:build verif
+// +build verif
+
+package leanhelixterm
+
+import "github.com/orbs-network/lean-helix-go/services/termincommittee"
+
+// VerifTermInCommittee gives the verification harness read access to the in-committee term (nil when
+// this node is not a committee member at this height). Build tag "verif" only.
+func (lht *LeanHelixTerm) VerifTermInCommittee() *termincommittee.TermInCommittee {
+	return lht.termInCommittee
+}
